@@ -35,6 +35,7 @@ def run(ctx):
     ctx.guard(rule_b, ctx, ix)
     ctx.guard(rule_c, ctx, ix)
     ctx.guard(rule_d, ctx, ix)
+    ctx.guard(rule_e, ctx, ix)
 
 
 def family(ix):
@@ -400,3 +401,50 @@ def run_thorough(ctx):
             ctx.ob(R, '%s `%s`' % (f.construct, norm(r)), 'the returned value depends on the view', ok,
                    detail='%s returns `%s` independently of its %s parameter' % (f.construct, norm(r), vp[0]), where=where(f, r))
     ctx.ob(R, 'glue', '%d further data-access functions swept' % n, True, nontrivial=False)
+
+
+def rule_e(ctx, ix):
+    """View entries and IndexedData indices are *indices*: they may be negative (counted from the end).  Code that computes
+    with one as if it were an absolute position (x + 1, x - start, x < stop against a normalised bound) is right for every
+    non-negative index and wrong for the others."""
+    from ..relidx import make_classifier, position_arithmetic, REL
+    R = 'C04.e'
+    ctx.describe(R, 'caller-supplied indices (view entries, IndexedData.indices) are normalised before any position arithmetic', floor=30)
+    fam = family(ix)
+    for f, vp in fam:
+        cl = make_classifier({vp})
+        out, env = position_arithmetic(f.node, cl, {vp: frozenset([REL])})
+        ctx.ob(R, f.construct, 'no entry of `%s` is used as an absolute position' % vp, not out,
+               detail='%s computes with an entry of its view as if it were an absolute position: `%s` - a negative index (the last '
+                      'element, ...) is a legal view entry and selects something else than the same view of the full result; normalise it '
+                      'first (range(n)[i], i %% n, slice.indices(n))' % (f.construct, '`, `'.join(t for _, t in out[:3])),
+               where=where(f, out[0][0]) if out else f.where)
+    idx = ix.cls('glue.core.data_derived.IndexedData')
+    if idx is None:
+        raise AnalysisError('IndexedData vanished')
+    n = 0
+    for name, mem in sorted(idx.members.items()):
+        for f in _member_funcs(mem):
+            if f is None or f.cls is not idx:
+                continue
+            n += 1
+            rel = {'self._indices', 'self.indices'}
+            if name == 'indices' or name == '__init__':
+                rel |= set(p for p in f.params[1:] if p in ('indices', 'value'))
+            cl = make_classifier(rel)
+            out, env = position_arithmetic(f.node, cl, {})
+            ctx.ob(R, f.construct + ('' if f.name == name else ' (%s)' % f.name), 'the index tuple is passed on, never computed with', not out,
+                   detail='%s computes with an entry of the index tuple as if it were an absolute position: `%s` - IndexedData(data, (-1, None)) '
+                          'is the last plane of its parent, and this expression selects something else (or nothing) for it'
+                          % (f.construct, '`, `'.join(t for _, t in out[:3])), where=where(f, out[0][0]) if out else f.where)
+    if n < 10:
+        raise AnalysisError('IndexedData: only %d methods found' % n)
+
+
+def _member_funcs(mem):
+    out = []
+    for attr in ('func', 'fget', 'fset', 'fdel'):
+        f = getattr(mem, attr, None)
+        if f is not None and f not in out:
+            out.append(f)
+    return out
